@@ -72,6 +72,9 @@ class ExprMixin(object):
             e = env.parent
         env = st.heap[env_ref.id]
         mod = env.module
+        ov = getattr(self, "global_overrides", None)
+        if ov and (mod.name, name) in ov:
+            return ov[(mod.name, name)]
         r = self.repo.resolve_global(mod, name)
         if r is not None:
             if r[0] == "func":
@@ -323,6 +326,22 @@ class ExprMixin(object):
                         except IndexError:
                             self.hazard(st, "IndexError", node, module, TRUE, "list index out of range")
                             raise Dead()
+                    if idx.v in (0, -1) and o.items:
+                        # first (last) element that is present; IndexError when none is
+                        seq = list(o.items) if idx.v == 0 else list(reversed(o.items))
+                        anyp = mk_or([g for g, _ in seq])
+                        anyp = self.try_fold_bool(st, anyp) if isinstance(anyp, BoolOp) else anyp
+                        d = self.decide(st, anyp)
+                        if d is False:
+                            self.hazard(st, "IndexError", node, module, TRUE, "list index out of range")
+                            raise Dead()
+                        if d is None:
+                            self.hazard(st, "IndexError", node, module, mk_not(anyp), "the list may be empty")
+                            self.assume(st, anyp)
+                        out = seq[-1][1]
+                        for g, v_ in reversed(seq[:-1]):
+                            out = self.mk_ite(st, g, v_, out)
+                        return out
                 raise AnalysisError("E5.subscript", "symbolic list indexing", node, module)
         if isinstance(base, TupleVal):
             if isinstance(idx, Const) and isinstance(idx.v, int):
@@ -939,7 +958,14 @@ class ExprMixin(object):
         for p in flat:
             if isinstance(p, Const) and p.v == "":
                 continue
-            if out and is_discrete(out[-1]) and is_discrete(p) and fo.can_fold([out[-1], p]) and _small(fo, out[-1], p):
+            cross = (
+                getattr(self, "keep_pieces", False)
+                and out
+                and isinstance(out[-1], Fin)
+                and isinstance(p, Fin)
+                and set(out[-1].slots) != set(p.slots)
+            )
+            if out and not cross and is_discrete(out[-1]) and is_discrete(p) and fo.can_fold([out[-1], p]) and _small(fo, out[-1], p):
                 out[-1] = fo.fold(lambda x, y: x + y, [out[-1], p])
             else:
                 out.append(p)
